@@ -1,6 +1,6 @@
 SPECIFICATION Spec
 CONSTANTS
-  Templates = {"branch", "loop", "nested", "straight", "call", "rec", "closure", "bigconst", "loopbranch", "rangebranch", "strbranch", "sharedcmp", "fltbranch", "extract", "orand", "switch2", "ubig", "consttype", "sibloops", "dectree", "labeled", "closure2", "hoistarms", "bigloop", "selectone", "ivwidth", "sliceidx"}
+  Templates = {"branch", "loop", "nested", "straight", "call", "rec", "closure", "bigconst", "loopbranch", "rangebranch", "strbranch", "sharedcmp", "fltbranch", "extract", "orand", "switch2", "ubig", "consttype", "sibloops", "dectree", "labeled", "closure2", "hoistarms", "bigloop", "selectone", "ivwidth", "sliceidx", "effects", "armloops", "maplen"}
   Export = TRUE
 INVARIANTS RefactorPreserves ExportInv
 CHECK_DEADLOCK FALSE
